@@ -54,8 +54,8 @@ vars == <<cfg, eff, claims, left, st, phase, flags, preq, tmpl>>
 U == [zone |-> <<"a", "b", "c", "~">>, ct |-> <<"reserved", "od", "~">>, it |-> <<"T1", "T2", "~">>, rid |-> <<"r1", "r2", "~">>]
 UNum == [k \in DOMAIN U |-> [i \in DOMAIN U[k] |-> NoInt]]
 
-Od(z, av) == [zone |-> z, ct |-> "od", price |-> 100, available |-> av, rid |-> "", rcap |-> 0, cpuOv |-> 0, memOv |-> 0]
-Rs(z, id, cap, av) == [zone |-> z, ct |-> "reserved", price |-> 1, available |-> av, rid |-> id, rcap |-> cap, cpuOv |-> 0, memOv |-> 0]
+Od(z, av) == [zone |-> z, ct |-> "od", price |-> 100, available |-> av, rid |-> "", rcap |-> 0, cpuOv |-> 0, memOv |-> 0, podsOv |-> 0, ohCpu |-> 0, ohMem |-> 0]
+Rs(z, id, cap, av) == [zone |-> z, ct |-> "reserved", price |-> 1, available |-> av, rid |-> id, rcap |-> cap, cpuOv |-> 0, memOv |-> 0, podsOv |-> 0, ohCpu |-> 0, ohMem |-> 0]
 Ty(n, cpu, offs) == [name |-> n, cpu |-> cpu, mem |-> 4096, pods |-> 110, labels |-> [arch |-> "amd64", os |-> "linux"], ovCpu |-> 100, ovMem |-> 0,
                      offerings |-> offs]
 \* T1 hosts two small pods or one big one, T2 four small ones
